@@ -100,18 +100,26 @@ func (s *set[ElementType]) Compute(mutationFactory func(set ReadableSet[ElementT
 }
 
 // Replace replaces the elements of the set with the given elements and returns the previous elements of the set.
-func (s *set[ElementType]) Replace(elements ReadableSet[ElementType]) (previousElements Set[ElementType]) {
+func (s *set[ElementType]) Replace(elements ReadableSet[ElementType]) (removedElements Set[ElementType]) {
 	s.applyMutex.Lock()
 	defer s.applyMutex.Unlock()
 
-	previousElements = NewSet(s.ToSlice()...)
+	previousElements := s.ToSlice()
 	s.Clear()
 
 	elements.Range(func(element ElementType) {
 		s.Set(element, types.Void)
 	})
 
-	return previousElements
+	// only the elements that are gone afterwards were removed
+	removedElements = NewSet[ElementType]()
+	for _, element := range previousElements {
+		if !s.Has(element) {
+			removedElements.Add(element)
+		}
+	}
+
+	return removedElements
 }
 
 // ReadOnly returns a read-only version of the set.
